@@ -58,6 +58,15 @@ SCRIPTED = [
     "namer = fn9 => do {\n  y0 = fn9\n  return 0\n}\nnamer(gl[0])\ngl[0](1)",
     "mk2 = y0 => (x => do {\n  y0 = y0 + x\n  return y0\n})\nfz = mk2(7)\nfz(1)",
     "do {\n  y0 = 1000\n  return fz(1)\n}\nfz(1)",
+    # every list / record built-in applied to a bound value: the bound value must read the same afterwards
+    "l9 = [3, 1, 2, 1]\nr9 = {b: 1, a: [2]}\ns9 = \"b,a\"",
+    "m9 = [reverse(l9), sort(l9), unique(l9), concat(l9, l9), flatten([l9, [l9]]), slice(l9, 0, 2), tail(l9), head(l9)]\n[l9, r9, s9]",
+    "m8 = [sort_by(l9, x => 0 - x), map(l9, x => x + 1), filter(l9, x => x > 1), l9 via (x => x), l9 where (x => x > 1), reduce(l9, (a, x) => a + x, 0)]\n[l9, r9, s9]",
+    "m7 = [keys(r9), values(r9), entries(r9), {...r9, c: 3}, [...l9, 4], l9 + 1, zip(l9, l9), chunk(l9, 2), group_by(l9, x => to_string(x)), count_by(l9, x => to_string(x))]\n[l9, r9, s9]",
+    "m6 = [split(s9, \",\"), replace(s9, \"b\", \"c\"), uppercase(s9), s9 + \"!\", [...s9], r9.a, reverse(r9.a), sort(values(r9))]\n[l9, r9, s9]",
+    # a parameter named like the function itself / like `inputs` is still the parameter
+    "fo9 = fo9 => fo9 + 1\nfo9(41)\n(zz9 => zz9 + 1)(41)",
+    "gi9 = inputs => inputs * 2\ngi9(21)\n(zz8 => zz8 * 2)(21)",
 ]
 ALPHABET = ALPHABET + SCRIPTED
 # (statement, statement) that must have equal results when both succeed in one session
@@ -65,6 +74,11 @@ SAME_RESULT = [
     ("do {\n  y0 = 50\n  return fy(1)\n}", "fy(1)"),
     ("(y0 => fy(1))(50)", "fy(1)"),
     ("do {\n  y0 = 1000\n  return fz(1)\n}", "fz(1)"),
+]
+# ... and (call, reference, function name): once the function is bound, the call must succeed like the reference
+SAME_RESULT_STRICT = [
+    ("fo9(41)", "(zz9 => zz9 + 1)(41)", "fo9"),
+    ("gi9(21)", "(zz8 => zz8 * 2)(21)", "gi9"),
 ]
 TAIL = "[#n, inputs.n]"
 
@@ -161,6 +175,20 @@ def check_session_invariant(src, out, res, known):
             r_ = strip_names(seg.partition(";ENV:")[0])
             if r_.startswith("OK:"):
                 ok_of.setdefault(stx, r_)
+        last_of = {}
+        bound_at = {}
+        for i2, (stx, seg) in enumerate(zip(stmts, segs)):
+            last_of[stx] = (i2, strip_names(seg.partition(";ENV:")[0]))
+            for k2 in parse_env(strip_names(seg.partition(";ENV:")[2])):
+                bound_at.setdefault(k2, i2)
+        for call, ref, fname in SAME_RESULT_STRICT:
+            if call in last_of and ref in ok_of and fname in bound_at and bound_at[fname] < last_of[call][0]:
+                checks += 1
+                if last_of[call][1] != ok_of[ref]:
+                    viol("a parameter named like the function itself or like `inputs` is not the parameter "
+                         "(the call differs from the same body under another parameter name)",
+                         {"statement": call, "result": last_of[call][1], "reference_statement": ref,
+                          "reference_result": ok_of[ref]})
         for wrapped, bare in SAME_RESULT:
             if wrapped in ok_of and bare in ok_of:
                 checks += 1
